@@ -595,6 +595,11 @@ def run(ctx):
             fields = {f["name"] for f in sa["variants"][0]["fields"]}
             if len(fields) < 2:
                 continue
+            # the moving average by role: a floating-point value kept together with an integer warm-up count (a struct of plain
+            # counters, whose fields are independent of each other, is not it)
+            ftys_ = [f["ty"] for f in sa["variants"][0]["fields"]]
+            if not (any(t_ in ("f32", "f64") for t_ in ftys_) and any(t_ in ("u8", "u16", "u32", "u64", "usize") for t_ in ftys_)):
+                continue
             for b in F.all_bodies(W):
                 if "::tests::" in b.path:
                     continue
